@@ -128,8 +128,9 @@ def returns_none(tag: str, none_mod) -> bool:
 
 
 def pick_by_name(out, name):
-    """A custom output_picker: the function returns a dict name -> value."""
-    return out[name]
+    """A custom output_picker: the function returns a dict keyed by its own (unscoped) output names; the picker is
+    asked for the pipeline-level name, which carries the scope prefix after update_scope."""
+    return out[name.split(".")[-1]]
 
 
 def _body(fname: str, outputs: tuple, internal, kw: dict, none_mod=None, as_dict=False):
@@ -483,22 +484,25 @@ def _via_map(f: dict, rng) -> None:
         f["internal_bare_int"] = rng.random() < 0.5
 
 
-def gen_internal_consumer_program(rng: random.Random) -> dict:
-    """A producer whose output has an internal axis at a random position among 1-2 mapped axes, and a consumer that reads
-    that output through a key mixing slices and names over internal *and* mapped axes (incl. fully sliced), next to a
-    second mapped input.  (Element order inside sliced blocks is what such consumers observe.)"""
-    n_ext = rng.choice((1, 1, 2))
+def gen_internal_consumer_program(rng: random.Random, n_ext=None, pos=None, use_mask=None) -> dict:
+    """A producer whose output has an internal axis at position `pos` among `n_ext` mapped axes, and a consumer that
+    reads that output through a key mixing slices and names over internal *and* mapped axes (`use_mask[q]`: axis q is
+    named; all False = fully sliced), next to a second mapped input.  (Element order inside sliced blocks is what such
+    consumers observe.)  Unspecified parameters are drawn at random."""
+    n_ext = rng.choice((1, 1, 2)) if n_ext is None else n_ext
     ext = list(IDX[:n_ext])
     sizes = {a: rng.choice((2, 3)) for a in ext}
     ix = IDX[n_ext]
     sizes[ix] = rng.choice((2, 3))
     oidx = list(ext)
-    oidx.insert(rng.randint(0, len(oidx)), ix)
+    oidx.insert(rng.randint(0, len(oidx)) if pos is None else pos, ix)
     inputs = {"n": {"shape": tuple(sizes[a] for a in ext), "kind": "ndarray"}}
     f0 = {"name": "f0", "params": ["n"], "outputs": ["x"], "internal": (sizes[ix],),
           "spec": {"inputs": [("n", tuple(ext))], "outputs": [("x", tuple(oidx))]}}
     _via_map(f0, rng)
-    use = tuple(a if rng.random() < 0.35 else None for a in oidx)
+    if use_mask is None:
+        use_mask = tuple(rng.random() < 0.35 for _ in oidx)
+    use = tuple(a if m else None for a, m in zip(oidx, use_mask))
     named = [u for u in use if u is not None]
     kx = IDX[n_ext + 1]
     sizes[kx] = rng.choice((1, 2, 3))
@@ -508,6 +512,16 @@ def gen_internal_consumer_program(rng: random.Random) -> dict:
     f1 = {"name": "f1", "params": ["x", "w"], "outputs": ["s"], "internal": None,
           "spec": {"inputs": [("x", use), ("w", (kx,))], "outputs": [("s", tuple(out_axes))]}}
     return {"funcs": [f0, f1], "inputs": inputs, "sizes": sizes}
+
+
+def all_internal_consumer_programs(rng: random.Random) -> list:
+    """Every (number of mapped axes 1..2, position of the internal axis, named/sliced pattern of the consumer's key)."""
+    out = []
+    for n_ext in (1, 2):
+        for pos in range(n_ext + 1):
+            for use_mask in itertools.product((False, True), repeat=n_ext + 1):
+                out.append(gen_internal_consumer_program(rng, n_ext, pos, use_mask))
+    return out
 
 
 def describe(prog: dict) -> dict:
